@@ -53,6 +53,7 @@ type Script struct {
 	// RWTimeoutMs > 0: the servers run with ReadTimeout and WriteTimeout of that length (the binary configures both,
 	// 60 s by default): their timers fire on goroutines of their own while the victim stalls
 	RWTimeoutMs int64 `json:"rw_timeout_ms,omitempty"`
+	BigHeaders  bool  `json:"big_headers,omitempty"`
 }
 
 var col = vstat.New("C10", "c10.robust")
@@ -141,7 +142,12 @@ func genMuts(t *rapid.T) []Mutation {
 func gen(t *rapid.T) Script {
 	s := Script{ALPN: rapid.SampledFrom([]string{"h2", "http/1.1", ""}).Draw(t, "alpn"), NReq: rapid.IntRange(1, 3).Draw(t, "nreq"),
 		RWTimeoutMs: rapid.SampledFrom([]int64{0, 0, 500, 60000}).Draw(t, "rwTimeout")}
-	switch s.Kind = rapid.SampledFrom([]string{"bytes", "mutate-plain", "mutate-plain", "mutate-plain", "mutate-tls", "truncate", "stall", "iofault", "iofault", "panic", "panic", "h2-frames", "h2-frames", "h2-frames", "stall-reset", "window0-reset"}).Draw(t, "kind"); s.Kind {
+	switch s.Kind = rapid.SampledFrom([]string{"bytes", "mutate-plain", "mutate-plain", "mutate-plain", "mutate-tls", "truncate", "stall", "iofault", "iofault", "panic", "panic", "h2-frames", "h2-frames", "h2-frames", "stall-reset", "window0-reset", "priority-flood"}).Draw(t, "kind"); s.Kind {
+	case "priority-flood":
+		// thousands of PRIORITY frames (legal; the repository ships a proof of concept of this flood), then a PING
+		// and a request: whatever the proxy keeps per frame, the connection must stay alive or be closed, not wedge
+		s.ALPN = "h2"
+		s.Limit = int64(rapid.SampledFrom([]int{2000, 10001, 10050, 30000}).Draw(t, "nprio"))
 	case "window0-reset":
 		// a client that announces a zero stream window, asks for responses a user-supplied handler writes
 		// in one large Write (ignoring the error, as handlers do), and then resets the streams or leaves:
@@ -170,6 +176,9 @@ func gen(t *rapid.T) Script {
 		s.ALPN = "h2"
 		s.Limit = int64(rapid.SampledFrom([]int{300000, 1 << 20, 4 << 20}).Draw(t, "big"))
 		s.NReq = rapid.IntRange(1, 3).Draw(t, "streams")
+		// BigHeaders: the response's header section alone (600 KB in 150 fields) is more than the connection can
+		// buffer, so the stream is reset while HEADERS/CONTINUATION frames are still being written
+		s.BigHeaders = rapid.IntRange(0, 2).Draw(t, "bighdr") == 0
 	case "bytes":
 		switch rapid.IntRange(0, 3).Draw(t, "bk") {
 		case 0:
@@ -325,6 +334,14 @@ func exec(t *testing.T, s Script) *vstat.Violation {
 		}
 		opts.BackendRespond = func(w http.ResponseWriter, r *http.Request, rec *rig.Recorded) {
 			var n int
+			if _, err := fmt.Sscanf(r.URL.Path, "/bighdr/%d", &n); err == nil {
+				for k := 0; k < 150; k++ {
+					w.Header().Set(fmt.Sprintf("X-Big-%d", k), strings.Repeat("h", 4000))
+				}
+				w.Header().Set("Content-Length", fmt.Sprint(n))
+				w.Write(bigBody(n))
+				return
+			}
 			if _, err := fmt.Sscanf(r.URL.Path, "/big/%d", &n); err == nil {
 				w.Header().Set("Content-Length", fmt.Sprint(n))
 				w.Write(bigBody(n))
@@ -378,7 +395,7 @@ func exec(t *testing.T, s Script) *vstat.Violation {
 				go raw.Write(s.Garbage)
 				drain(raw)
 				return
-			case "h2-frames", "stall-reset", "window0-reset":
+			case "h2-frames", "stall-reset", "window0-reset", "priority-flood":
 				c, err := rig.Handshake(raw, rig.ClientOpts{StdALPN: []string{"h2"}})
 				if err != nil {
 					return
@@ -393,6 +410,21 @@ func exec(t *testing.T, s Script) *vstat.Violation {
 					}()
 					go func() { time.Sleep(40 * time.Second); c.Conn.Close() }()
 					drain(c.Conn)
+					return
+				}
+				if s.Kind == "priority-flood" {
+					peer := rig.NewH2Peer(c.Conn)
+					peer.Start()
+					peer.Fr.WriteSettings()
+					for k := int64(0); k < s.Limit; k++ {
+						peer.Fr.WritePriority(uint32(3+2*(k%50)), xhttp2.PriorityParam{StreamDep: 0, Weight: uint8(k)})
+					}
+					peer.Fr.WritePing(false, [8]byte{1})
+					peer.SendH2(1, rig.ReqSpec{Method: "GET", Path: "/after-flood", Authority: "x"}, nil)
+					peer.Fr.WritePriority(201, xhttp2.PriorityParam{StreamDep: 0, Weight: 1})
+					peer.Fr.WritePing(false, [8]byte{2})
+					time.Sleep(5 * time.Second)
+					c.Conn.Close()
 					return
 				}
 				if s.Kind == "window0-reset" {
@@ -423,7 +455,11 @@ func exec(t *testing.T, s Script) *vstat.Violation {
 				peer.Fr.WriteWindowUpdate(0, 1<<30-65535)
 				peer.PauseReads()
 				for i := 0; i < s.NReq; i++ {
-					peer.SendH2(uint32(1+2*i), rig.ReqSpec{Method: "GET", Path: fmt.Sprintf("/big/%d", s.Limit), Authority: "x"}, nil)
+					path := fmt.Sprintf("/big/%d", s.Limit)
+					if s.BigHeaders {
+						path = fmt.Sprintf("/bighdr/%d", s.Limit)
+					}
+					peer.SendH2(uint32(1+2*i), rig.ReqSpec{Method: "GET", Path: path, Authority: "x"}, nil)
 				}
 				time.Sleep(2 * time.Second) // the server's writes have backed up in the connection buffer by now
 				for i := 0; i < s.NReq; i++ {
@@ -593,7 +629,7 @@ var _ = errors.New
 
 func TestRobust(t *testing.T) {
 	rig.Certs()
-	col.Mandatory("kind:bytes", "kind:mutate-plain", "kind:mutate-tls", "kind:truncate", "kind:stall", "kind:iofault", "kind:panic", "kind:h2-frames", "kind:stall-reset", "kind:window0-reset", "read/write-timeouts-fire-while-the-victim-stalls", "past-tls-handshake",
+	col.Mandatory("kind:bytes", "kind:mutate-plain", "kind:mutate-tls", "kind:truncate", "kind:stall", "kind:iofault", "kind:panic", "kind:h2-frames", "kind:stall-reset", "kind:window0-reset", "kind:priority-flood", "read/write-timeouts-fire-while-the-victim-stalls", "past-tls-handshake",
 		"panic-site:GetCertificate", "panic-site:GetConfigForClient", "panic-site:VerifyConnection", "panic-site:ConnState", "panic-site:injector", "panic-site:handler",
 		"fault:Read", "fault:Write", "fault:SetDeadline", "fault:Close")
 	vstat.Run(t, vstat.Spec[Script]{Col: col, Quick: 1500, Thorough: 40000, Gen: gen, Exec: func(s Script) *vstat.Violation { return exec(t, s) }})
